@@ -70,6 +70,9 @@ EVENTS["dl_seg_t0_7"] = bytes([0x00]) + b"1234567"
 EVENTS["dl_seg_t1_7"] = bytes([0x10]) + b"abcdefg"
 EVENTS["dl_seg_t1_2_last"] = bytes([0x10 | (5 << 1) | 1]) + b"89" + bytes(5)
 EVENTS["dl_seg_t0_3_last"] = bytes([0x00 | (4 << 1) | 1]) + b"xyz" + bytes(4)
+EVENTS["dl_seg_t0_2_last"] = bytes([0x00 | (5 << 1) | 1]) + b"\x77\x66" + bytes(5)
+EVENTS["dl_seg_t0_4_last"] = bytes([0x00 | (3 << 1) | 1]) + b"\x04\x03\x02\x01" + bytes(3)
+EVENTS["dl_exp_four_badlen"] = bytes([0x2B]) + mux(0x2001) + b"\xAA\xBB\0\0"
 EVENTS["dl_seg_t0_0_last"] = bytes([0x00 | (7 << 1) | 1]) + bytes(7)
 EVENTS["blk_ul_init"] = bytes([0xA4]) + mux(0x2002) + bytes([127, 0, 0, 0])
 EVENTS["blk_ul_start"] = bytes([0xA3]) + bytes(7)
